@@ -92,9 +92,12 @@ impl TryFrom<tir::InputQuery> for CanonicalQuery {
         let min_amount = query
             .min_amount
             .as_option()
-            .map(|x| data_or_bail!(x, assets))
-            .transpose()?
-            .map(|x| CanonicalAssets::from(Vec::from(x)));
+            .map(|x| {
+                let assets = data_or_bail!(x, assets)?;
+                tx3_tir::reduce::try_canonical_assets(assets)
+                    .ok_or(Error::ExpectedData("assets".to_string(), x.clone()))
+            })
+            .transpose()?;
 
         let refs = query
             .r#ref
